@@ -373,6 +373,12 @@ func (t *Thread) goStmt(fr *frame, c *ssa.CallCommon, pos token.Pos) {
 	child := e.newThread(fmt.Sprintf("go@%s", t.posOf(pos)), func(ct *Thread) {
 		ct.callClosure(fv, args, pos)
 	})
+	// symmetry class: same go statement, same callee, identical argument identities
+	child.spawnKey = fmt.Sprintf("%s|%s", t.posOf(pos), e.valueKey(fv))
+	for _, a := range args {
+		child.spawnKey += "," + e.valueKey(a)
+	}
+	child.isFresh = true
 	// happens-before: everything before the go statement is visible to the child
 	for _, th := range []*Thread{t} {
 		th.tick()
